@@ -3,6 +3,7 @@ Structural rules over the undo-log protocol of FileStorage / WriteAheadLog / Sto
 from lib import cfg
 from rules import common
 
+CRATES = ("agdb",)
 EXPLANATION = (
     "Static analysis (MIR CFG rules over /repo's current source) of the undo-log protocol: log-before-write "
     "dominance with the log's error edge as a cut, closed set of file writers, newest-first replay idiom, "
